@@ -35,7 +35,7 @@ func Inner(x Vector, a Matrix, y Vector) float64 {
 
 	var sum float64
 
-	switch a := a.(type) {
+	switch a := hideUnsupportedRaw(a).(type) {
 	case RawSymmetricer:
 		amat := a.RawSymmetric()
 		if amat.Uplo != blas.Upper {
